@@ -116,6 +116,21 @@ def shards(tier, seed):
         for y0, y1 in zip(cuts, cuts[1:]):
             out.append({"name": "%s-all-%s-%d" % (f[0], f[3], y0),
                         "allyears": [i, y0, y1], "full": False})
+    # the change-over between successive events of the synodic finders (a
+    # call costs 20 microseconds): every one in the thorough tier, every
+    # sixth one (which sixth depends on the seed) in the quick tier
+    by_planet = {}
+    for i, f in enumerate(FINDERS):
+        if f[3] in RANGED:
+            by_planet.setdefault(f[0], []).append(i)
+    for planet, idxs in sorted(by_planet.items()):
+        stride = 1 if tier == "thorough" else 6
+        cuts = (-1999, 1, 3999) if planet != "Mercury" else \
+            (-1999, -500, 1000, 2500, 3999)
+        for y0, y1 in zip(cuts, cuts[1:]):
+            out.append({"name": "%s-switch-%d" % (planet, y0),
+                        "switches": [idxs, y0, y1, stride, seed % stride],
+                        "full": False})
     # Jupiter (506 events of each kind in the domain) and Saturn (204): every
     # event judged in the thorough tier, every third one (which third
     # depends on the seed) in the quick tier; a Saturn call costs 0.2 s
@@ -551,6 +566,81 @@ def case_allyears(mon, fi, y0, y1, stride=1, judge_every=40, first=0):
             (fi, y0, y1, first), [planet, meth, list(args), y0, y1, n])
 
 
+def case_switches(mon, fi, y0, y1, stride=1, first=0):
+    """Where the answer changes: between two successive events a < b the
+    finder answers a for early queries and b for late ones.  The query at
+    which it changes over is located by bisection (to 1e-3 day) and the 0.6
+    day around it is walked in steps of 0.01 day: the answer never goes from
+    b back to a.  (A finder that picks "the closest event" by more than one
+    rule can have a few hours there in which two rules disagree; no sweep
+    with steps of a twentieth of a period lands in them.)"""
+    planet, meth, args, kind = FINDERS[fi]
+    P = period_of(fi)
+    same = max(1.0 if planet in INNER else 2.0, 0.005 * P)
+    lo_q = max(jd_of_year(float(y0)), jd_of_year(-1999.0)) + 0.5 * P
+    end = min(jd_of_year(float(y1)), jd_of_year(3999.0)) - P
+    try:
+        a, _x = call_finder(fi, lo_q)
+    except Exception:
+        return
+    n = 0
+    while a < end:
+        n += 1
+        try:
+            b, _x = call_finder(fi, a + P)
+        except Exception:
+            a = a + P
+            continue
+        if not (0.5 * P < b - a < 1.5 * P):
+            a = max(b, a + 0.5 * P)
+            continue
+        if (n - first) % stride == 0:
+            lo, hi = a, b
+            ok = True
+            while hi - lo > 1e-3:
+                mid = 0.5 * (lo + hi)
+                mon.evals += 1
+                try:
+                    r, _x = call_finder(fi, mid)
+                except Exception:
+                    ok = False
+                    break
+                if abs(r - a) <= same:
+                    lo = mid
+                elif abs(r - b) <= same:
+                    hi = mid
+                else:
+                    ok = False     # a third answer: left to the sweeps
+                    break
+            if ok:
+                seen_b = None
+                q = lo - 0.3
+                bad = None
+                while q <= lo + 0.3:
+                    mon.evals += 1
+                    try:
+                        r, _x = call_finder(fi, q)
+                    except Exception:
+                        q += 0.01
+                        continue
+                    if abs(r - b) <= same:
+                        seen_b = q if seen_b is None else seen_b
+                    elif abs(r - a) <= same and seen_b is not None:
+                        bad = (seen_b, q)
+                        break
+                    q += 0.01
+                mon.check("order.never-backwards", bad is None,
+                          lambda: {"planet": planet, "finder": meth,
+                                   "args": list(args), "earlier_event": a,
+                                   "later_event": b,
+                                   "query_answered_with_the_later": bad[0],
+                                   "later_query_answered_with_the_earlier":
+                                   bad[1]})
+        a = b
+    mon.cls("change-over-between-successive-events", (fi, y0, y1, first),
+            [planet, meth, list(args), y0, y1, n])
+
+
 def case_leapday(mon, fi, year):
     """Query on 29 February of a Julian century year (a date the proleptic
     Gregorian calendar does not have)."""
@@ -563,13 +653,20 @@ def case_leapday(mon, fi, year):
 
 
 CASES = {"history": history.case, "sweep": case_sweep, "event": case_event, "range": case_range, "edge": case_edge, "newyear": case_newyear,
-         "leapday": case_leapday, "allyears": case_allyears}
+         "leapday": case_leapday, "allyears": case_allyears,
+         "switches": case_switches}
 
 
 def run(mon, spec):
     if "allyears" in spec:
         mon.begin("allyears", spec["allyears"])
         case_allyears(mon, *spec["allyears"])
+        return
+    if "switches" in spec:
+        for fi in spec["switches"][0]:
+            p_ = [fi] + spec["switches"][1:]
+            mon.begin("switches", p_)
+            case_switches(mon, *p_)
         return
     history.run_cases(mon, ID, spec)
     if not sp.self_check():
